@@ -290,6 +290,11 @@ func run(s *kernel.Sim, c *scen.Case) {
 		}
 		ln, _ := net0.Listen("10.0.0.2:9618")
 		verifhook.DialFunc = func(dctx context.Context, network, addr string) (net.Conn, error) {
+			if p.Role == "connect-sp" {
+				// the shared-port path dials with net.DialTimeout, which does not look at the context:
+				// a context that is already done still gets a connection, and the first write meets it
+				dctx = bg
+			}
 			ep, err := net0.Dial(dctx, "10.0.0.1", addr)
 			if err != nil {
 				return nil, err
